@@ -267,6 +267,19 @@ def c09_extra(rep, rnd, first_id):
         body = bytes(r2.randrange(1, 256) for _ in range((4 if len(fields) == 2 else 0) + esz * r2.randrange(0, 4)))
         out.append(codec.enrich(codec.parse_record(first_id + n + 50 + len(out), scn, bytes(r2.randrange(256) for _ in range(start)) + body, start,
                                                    r2.random() < 0.5, both=True), forms=r2.random() < 0.3))
+    # the parsed type need not be a structure: enums, flags and scalars called / read directly, every call form x input kind
+    # (seed S102: an enum called with a bytearray or memoryview took another path than with bytes)
+    for _ in range(max(30, n // 5)):
+        base = r2.choice(["uint8", "uint16", "int16", "uint24", "uint32", "int64"])
+        t = r2.choice([A.t_enum("TopE", base, [("P", 1), ("Q", 2), ("R", 0x31)]),
+                       A.t_enum("TopF", base, [("X", 1), ("Y", 4)], flag=True) if not A.INTS[base][1] else A.t_enum("TopE", base, [("P", 1), ("N", -2)]),
+                       dict(A.t_int(base)), dict(A.t_leb(True), name="ileb128"), dict(A.t_float("float"), name="float"),
+                       dict(A.t_wchar(), name="wchar")])
+        scn = {"type": t, "mode": {"endian": r2.choice("<>"), "align": False, "ptr": 8}, "consts": {}, "defs": A.render(t) if t["k"] == "enum" else ""}
+        start = r2.choice([0, 0, 3])
+        # digits among the bytes: a buffer that int() would take for a literal must still be parsed as bytes
+        body = bytes(r2.choice([0x31, 0x32, 0x30, 0x37, 1, 2, 0x80, 0xFF, r2.randrange(256)]) for _ in range(r2.randrange(0, 12)))
+        out.append(codec.enrich(codec.parse_record(first_id + n + 50 + len(out), scn, bytes(start) + body, start, False), forms=True))
     rid = first_id + n + 100 + len(out)
     for _ in range(n):
         scn = codec.gen_scenario(r2, {"eof": False})
